@@ -917,6 +917,19 @@ func genHistory(r *rng) (ops []string) {
 	if r.below(3) == 0 {
 		do(fmt.Sprintf("BO %d", r.below(2)))
 	}
+	if r.below(5) == 0 && !dead {
+		// a signal leaves the message, the message changes its byte order, the signal comes back:
+		// it must take the new byte order whichever it had
+		k := r.below(nsig)
+		flip := 1 - b2i(w.msg.ByteOrder() == acmelib.MessageByteOrderBigEndian)
+		do(fmt.Sprintf("RM %d", k))
+		do(fmt.Sprintf("BO %d", flip))
+		if r.below(2) == 0 {
+			do(fmt.Sprintf("AP %d", k))
+		} else {
+			do(fmt.Sprintf("IN %d %d", k, r.below(8*nbytes)))
+		}
+	}
 	return ops
 }
 
